@@ -4,7 +4,7 @@
 use crate::gram::{RefGrammar, Sym};
 use std::collections::{BTreeMap, BTreeSet, HashMap};
 
-pub type TokSet = u64; // bit t = token t; bit `ntoks` = end of input
+pub type TokSet = u128; // bit t = token t; bit `ntoks` = end of input
 
 #[derive(Clone, Debug)]
 pub struct Analysis {
@@ -84,7 +84,7 @@ pub fn analyse(g: &RefGrammar) -> Analysis {
             }
         }
     }
-    let mut first = vec![0u64; n];
+    let mut first = vec![0u128; n];
     loop {
         let mut ch = false;
         for r in 0..n {
@@ -114,8 +114,8 @@ pub fn analyse(g: &RefGrammar) -> Analysis {
             break;
         }
     }
-    let eof = 1u64 << g.ntoks;
-    let mut follow = vec![0u64; n];
+    let eof = 1u128 << g.ntoks;
+    let mut follow = vec![0u128; n];
     follow[0] |= eof;
     loop {
         let mut ch = false;
@@ -715,8 +715,8 @@ pub fn sentential_forms(g: &RefGrammar, start: usize, maxlen: usize) -> BTreeSet
 pub fn brute_analysis(g: &RefGrammar, maxlen: usize) -> (Vec<bool>, Vec<TokSet>, Vec<TokSet>) {
     let n = g.nrules();
     let mut nullable = vec![false; n];
-    let mut first = vec![0u64; n];
-    let mut follow = vec![0u64; n];
+    let mut first = vec![0u128; n];
+    let mut follow = vec![0u128; n];
     for r in 0..n {
         for f in sentential_forms(g, r, maxlen) {
             if f.is_empty() {
@@ -727,7 +727,7 @@ pub fn brute_analysis(g: &RefGrammar, maxlen: usize) -> (Vec<bool>, Vec<TokSet>,
             }
         }
     }
-    let eof = 1u64 << g.ntoks;
+    let eof = 1u128 << g.ntoks;
     for f in sentential_forms(g, 0, maxlen) {
         for (i, s) in f.iter().enumerate() {
             if let Sym::R(r) = s {
